@@ -5,7 +5,7 @@ from collections import Counter
 from hypothesis import strategies as st
 
 from vlib import gens
-from vlib.framework import Check, Outcome
+from vlib.framework import Check, Outcome, digest
 from vlib.sf import Crash, guard, mkcfg
 
 _TAG = re.compile(r"(\{[{%#][-+]?)(.*?)([-+]?[}%#]\})", re.S)
@@ -182,7 +182,20 @@ class C10(Check):
                     return p.patch_category, ("file-start" if s == 0 else "interior")
         return "none", "n/a"
 
+    _memo = {}
+
     def run_case(self, case):
+        # identical Hypothesis examples are answered from a per-process memo (a fix costs about a second)
+        key = digest(case)
+        hit = self._memo.get(key)
+        if hit is not None:
+            return hit
+        out = self._run_case(case)
+        if len(self._memo) < 5000:
+            self._memo[key] = out
+        return out
+
+    def _run_case(self, case):
         from sqlfluff.core import Linter
 
         out = Outcome()
